@@ -1,12 +1,22 @@
 """C16 — first matching arm: forward order, first match exits, fresh environment per arm shared by matcher/guard/body,
-arity test, exhaustiveness test before the arm loop, no-match error, pattern traversals visit every sub-pattern."""
+arity test, exhaustiveness test before the arm loop, no-match error, pattern traversals visit every sub-pattern.
+
+Roles are recognised by callee, field, type and provenance (lib/synq.py), never by the spelling of a local, and through private
+helpers (a helper call stands for its body with the parameters bound to the arguments):
+  arm loop        a `for` whose iterator (named locals expanded) reads an `arms` / `match_arms` field and whose body reaches a pattern matcher
+  arm under test  the bindings of that loop's pattern
+  environment     what the matcher receives as `&mut`
+  matched / guard the value of the matcher call / of the guard evaluator, wherever it is stored, negated, combined or tested
+"""
 import re
 from lib.facts import CallGraph, find, is_node, path_of, render, render_stmt
-from lib.armloop import arm_loops, check_arm_loop, matcher_calls, field_use, lets_in
+from lib.armloop import field_use
 from lib.mirq import calls_matching, result_exits
+from lib import synq as Q
 
 TECHNIQUE = ("structural rules over the expanded syntax of the two arm selectors (loop order, exit on first success, environment declared per arm and passed to "
-             "matcher, guard and body), statement-order/dominance rules for the arity and exhaustiveness tests (MIR), and field-use completeness (K6) of "
+             "matcher, guard and body) decided on lexically resolved bindings, path conditions and private helpers inlined at their call sites, "
+             "statement-order/dominance rules for the arity and exhaustiveness tests (MIR), and field-use completeness (K6) of "
              "every pattern traversal in interpreter/patterns.rs")
 EXPLANATION = (
     "Decides structural clauses of C16 for execute_function_match_arms and match_expression: (R1) arms are tried in forward source order and the first "
@@ -21,102 +31,321 @@ EXPLANATION = (
     ' (R10) broadcasting a scalar function over a matrix applies it to every element of matrix_like_values(source) in storage order (one push per element, errors propagated) and reassembles with (shape[0], shape[1]) of the source.'
 )
 
+ARMS_RX = re.compile(r"\.(match_)?arms\b")
+REORDER_RX = re.compile(r"\.rev\(\)|rposition|\.last\(\)|rfold|sort")
+MATCHER_RX = re.compile(r"(^|::)pattern_matches\w*$")
+GUARD_RX = re.compile(r"(^|::)guard_expression_true$")
+SELECTORS = (("execute_function_match_arms", "functions"), ("match_expression", "expressions"))
 
-def fn_item(items, name, mod_suffix):
-    r = [it for it in items if it["k"] == "fn" and it["name"] == name and it["mod"].endswith(mod_suffix)]
-    return r[0] if r else None
+
+def is_matcher(c, p):
+    return MATCHER_RX.search(p) is not None
+
+
+def last(p):
+    return re.sub(r"<.*>", "", p).split("::")[-1]
+
+
+class Selector:
+    """one arm-selection loop with everything the rules ask about it"""
+
+    def __init__(self, fns, it):
+        self.fns = fns
+        self.it = it
+        self.sc = Q.Scope(fns).add_fn(it)
+        self.loop = None
+        self.root = None          # the statement list (fn body or inlined helper body) the loop lives in
+        self.outer = []           # statement lists of the callers up to the anchor, with the index of the call: [(stmts, idx)]
+        self.candidates = []
+        self._find(it["body"], [], 2)
+        if len(self.candidates) == 1:
+            self.loop, self.root, self.outer = self.candidates[0]
+
+    def follow_any(self, h):
+        """helpers worth looking into: private, and not another anchor"""
+        return Q.is_private(h) and h["name"] not in [s[0] for s in SELECTORS] and h["name"] != self.it["name"]
+
+    def follow(self, h):
+        """helpers that are part of ONE arm's trial: not those that run an arm loop of their own (e.g. the kind validation of the other arms)"""
+        return self.follow_any(h) and not any(ARMS_RX.search(render(f[2])) for f in find(h["body"], "for"))
+
+    def _is_arm_loop(self, f):
+        return ARMS_RX.search(self.sc.text(f[2])) is not None and any(True for _ in Q.calls_via(self.sc, f[3], is_matcher, 2, self.follow, self.it["mod"]))
+
+    def _find(self, stmts, outer, depth):
+        here = [f for f in find(stmts, "for") if self._is_arm_loop(f)]
+        here = [f for f in here if not any(g is not f and Q.contains(g[3], f) for g in here)]     # an arm loop inside another one belongs to that one's trial
+        for f in here:
+            self.candidates.append((f, stmts, outer))
+        if here or depth <= 0:
+            return
+        for c in list(find(stmts, "call")):
+            h = self.fns.callee(c, self.it["mod"])
+            if h is None or not self.follow_any(h):
+                continue
+            body = self.sc.inline(c, h)
+            if body is None:
+                continue
+            tr = Q.locate(stmts, c)
+            self._find(body, outer + ([tr[0]] if tr else []), depth - 1)
+
+    # -- the parts of the loop
+    def trees(self):
+        """the loop body and every helper body it enters"""
+        if not hasattr(self, "_trees"):
+            self._trees = [t for t, _ in Q.expand_via(self.sc, self.loop[3], 2, self.follow, self.it["mod"])]
+        return self._trees
+
+    def nested(self):
+        """ids of the nodes inside arm loops nested in this one (e.g. the kind validation of the other arms, when it is written in line):
+        they try OTHER arms and are not part of this arm's trial"""
+        if not hasattr(self, "_nested"):
+            self._nested = set()
+            for f in find(self.loop[3], "for"):
+                if ARMS_RX.search(self.sc.text(f[2])):
+                    self._nested |= {id(x) for x in Q.walk_no_closure(f[3])} | {id(x) for x in find(f[3], "call")}
+        return self._nested
+
+    def calls(self, pred):
+        return [r[0] for r in Q.calls_via(self.sc, self.loop[3], pred, 2, self.follow, self.it["mod"]) if id(r[0]) not in self.nested()]
+
+    def arm_vars(self):
+        """bindings that stand for the arm under test: the loop pattern's, their aliases (`let a = arm`), and `&ARMS[i]` / `ARMS.get(i)` for a loop variable i"""
+        if hasattr(self, "_arm_vars"):
+            return self._arm_vars
+        sc = self.sc
+        out = set(sc.decl.get(id(self.loop), []))
+        owners = [o for t in self.trees() for o in list(find(t, "let")) + list(find(t, "letc"))]
+        for _round in range(3):
+            for o in owners:
+                for b in sc.decl.get(id(o), []):
+                    if b in out or b.src is None:
+                        continue
+                    x = Q.strip(b.src)
+                    if is_node(x) and x[0] == "mcall" and x[2] in ("get", "get_unchecked", "nth") and x[4]:
+                        x = ["index", x[1], x[4][0]]
+                    if sc.binding(x) in out:
+                        out.add(b)
+                    elif is_node(x) and x[0] == "index" and ARMS_RX.search(sc.text(x[1]) + ".") and any(sc.mentions(x[2], v) for v in list(out)):
+                        out.add(b)
+        self._arm_vars = out
+        return out
+
+    def envs(self):
+        out = []
+        for c in self.calls(is_matcher):
+            for a in c[2]:
+                if is_node(a) and a[0] == "ref" and a[1]:
+                    b = self.sc.root(a)
+                    if b is not None and b not in out:
+                        out.append(b)
+        return out
+
+    def declared_per_arm(self, b):
+        if b.owner is None or b.kind == "param":
+            return False
+        return any(Q.contains(t, b.owner) for t in self.trees())
+
+    def reset_before_matcher(self, b):
+        for top in self.loop[3]:
+            if any(True for _ in Q.calls_via(self.sc, top, is_matcher, 2, self.follow, self.it["mod"])):
+                return False
+            if top[0] == "expr" and is_node(top[1]) and top[1][0] == "assign" and self.sc.binding(top[1][1]) is b:
+                return True
+        return False
+
+    def success(self):
+        """assumption 'this arm matched and its guard passed'"""
+        def prim(c, p):
+            if MATCHER_RX.search(p) or GUARD_RX.search(p):
+                return True
+            return None
+        return Q.Assume(self.sc, prim)
+
+    def before_after(self):
+        """statements executed before the loop is entered / after it is left normally, innermost function first for `after`"""
+        pre, post = [], []
+        for lst, i in self.outer:
+            pre += lst[:i]
+        trail = Q.locate(self.root, self.loop)
+        for lst, i in trail:
+            pre += lst[:i]
+        for lst, i in reversed(trail):
+            post += lst[i + 1:]
+        return pre, post
+
+
+def texts_via(sel, stmts):
+    out = []
+    for t, _ in Q.expand_via(sel.sc, stmts, 2, sel.follow, sel.it["mod"]):
+        out.append(" ".join(render_stmt(s) for s in t))
+    return " ".join(out)
+
+
+def check_selector(rep, sel, name):
+    sc = sel.sc
+    loop = sel.loop
+    body = loop[3]
+    itx = sc.text(loop[2])
+    rep.check(not REORDER_RX.search(itx), "C16-R1", "%s:forward-order" % name,
+              "%s tries the arms as `%s` (not in source order)" % (name, render(loop[2])), sample={"fn": name, "iterator": itx})
+    mc = sel.calls(is_matcher)
+    rep.check(len(mc) >= 1, "C16-R2", "%s:matcher-called" % name, "%s: the arm loop does not call the pattern matcher" % name)
+    envs = sel.envs()
+    if not envs:
+        rep.note("undecided", {"rule": "C16-R2", "fn": name, "why": "the pattern matcher is called but the environment it fills is not passed as `&mut <place>`"})
+    for env in envs:
+        fresh = sel.declared_per_arm(env) or sel.reset_before_matcher(env)
+        rep.check(fresh, "C16-R2", "%s:env-fresh-per-arm" % name,
+                  "%s: the environment `%s` that the pattern matcher fills is not created inside the arm loop: bindings made while testing one arm leak into the test of the next arm (a later arm that should be the first match can be rejected)" % (name, env.name),
+                  sample={"fn": name, "env": env.name, "declared": render_stmt(env.owner)[:100] if env.owner and env.kind != "param" else None})
+    # R1: on success the loop is left.  Path conditions at every way of going on to the next arm must contradict "matched and guard passed".
+    ok = sel.success()
+    fl = Q.Flow(body).run()
+    exits = [(k, n, f) for k, n, f, d in fl.events if k == "ret" or (k == "break" and d == 0)]
+    succ = [x for x in exits if Q.supported(x[2], ok.atom, sc) and not Q.contradicted(x[2], ok.atom, sc)]
+    rep.check(len(succ) >= 1, "C16-R1", "%s:success-branch" % name, "%s: no exit of the arm loop is taken because the arm matched" % name)
+    nexts = [f for k, n, f, d in fl.events if k == "continue" and d == 0] + ([fl.end] if fl.end is not None else [])
+    leaks = [f for f in nexts if not Q.contradicted(f, ok.atom, sc)]
+    if succ:
+        rep.check(not leaks, "C16-R1", "%s:first-match-exits" % name,
+                  "%s: after an arm matched (and its guard passed) the loop can still go on to the next arm: later arms are tried after a match" % name)
+    arm_vars = sel.arm_vars()
+    for env in envs:
+        if name == "match_expression":
+            def is_guard_eval(c, p):
+                if GUARD_RX.search(p):
+                    return True
+                return last(p) == "expression" and any(sc.field_of(a, "guard", arm_vars) for a in c[2])
+            gc = [c for c in sel.calls(is_guard_eval) if any(sc.field_of(a, "guard", arm_vars) for a in c[2])]
+            rep.check(len(gc) >= 1, "C16-R2", "%s:guard-evaluated" % name, "%s: the guard of the arm under test is not evaluated" % name)
+            for c in gc:
+                rep.check(any(sc.mentions(a, env) for a in c[2]), "C16-R2", "%s:guard-uses-arm-env" % name,
+                          "%s: the arm guard is evaluated with %s instead of the environment the pattern matcher filled (`%s`): pattern variables are not visible to the guard" % (
+                              name, [render(a) for a in c[2]][1:2], env.name))
+        bc = sel.calls(lambda c, p: last(p) == "expression" and any(sc.field_of(a, "expression", arm_vars) for a in c[2]))
+        rep.check(len(bc) >= 1, "C16-R2", "%s:body-evaluated" % name, "%s: the matching arm's expression is not evaluated" % name)
+        for c in bc:
+            rep.check(any(sc.mentions(a, env) for a in c[2]), "C16-R2", "%s:body-uses-arm-env" % name,
+                      "%s: the arm body is evaluated with %s instead of the matcher's environment `%s`" % (name, [render(a) for a in c[2]][1:2], env.name),
+                      sample={"fn": name, "env": env.name})
+    # R3: falling out of the loop is an error
+    pre, post = sel.before_after()
+    errs = [r for r in Q.calls_via(sc, post, lambda c, p: p == "Err", 2, sel.follow, sel.it["mod"])]
+    carriers = set()
+    for a in find(body, "assign"):
+        b = sc.binding(a[1])
+        if b is not None and not sel.declared_per_arm(b):
+            carriers.add(b)
+    pf = Q.Flow(post).run(want=("call",))
+    bad_ok = []
+    for r in Q.calls_via(sc, post, lambda c, p: p == "Ok", 2, sel.follow, sel.it["mod"]):
+        site = pf.sites.get(id(r[0]))
+        conditional = site is not None and any(sc.mentions(c, b, 2) for c, _ in site[1] for b in carriers)
+        if not conditional:
+            bad_ok.append(r[0])
+    tail_txt = " ".join(render_stmt(s) for s in post)
+    rep.check(bool(errs) and not bad_ok, "C16-R3", "%s:no-match-is-error" % name,
+              "%s: falling out of the arm loop does not produce an error (`%s`)" % (name, tail_txt[:100]))
+    if name == "match_expression":
+        def nonexh_err(c, p):
+            return p == "Err" and "MatchNonExhaustiveError" in render(c)
+        hits = list(Q.calls_via(sc, pre, nonexh_err, 2, sel.follow, sel.it["mod"]))
+        rets = list(find(pre, "ret"))
+        leaves = [h for h in hits if h[1] or any(Q.contains(r, h[0]) for r in rets)]
+        rep.check(bool(leaves), "C16-R4", "match_expression:exhaustiveness-before-arms",
+                  "match_expression: no `return Err(MatchNonExhaustiveError)` precedes the arm loop: a match without wildcard that does not cover its enum is no longer rejected")
+        rep.check("Pattern::Wildcard" in texts_via(sel, pre), "C16-R4", "match_expression:wildcard-test", "match_expression: the wildcard test before the arm loop is gone")
+
+
+def len_compare_blocks(b, both=False):
+    """blocks that branch on an (in)equality of two values at least one of which (both=True: each of which) is a len()"""
+    from lib.mirq import Slice
+    sl = Slice(b)
+    out = []
+    for i, blk in enumerate(b.blocks):
+        t = blk["t"]
+        if t["k"] != "switch" or not isinstance(t["on"], list):
+            continue
+        for bi, s in sl.defs.get(t["on"][0], []):
+            if s.get("rk") == "bin" and s.get("op") in ("Ne", "Eq"):
+                per = [{r[1].split("::")[-1] for r in sl.roots(o) if r[0] == "call"} for o in s["src"]]
+                if (all("len" in r for r in per) and len(per) == 2) if both else any("len" in r for r in per):
+                    out.append(i)
+    return out
+
+
+def check_arity(F, rep, crate, fns):
+    """R3: the argument-count test dominates arm execution (MIR dominance; named locals, operand order and `!=`/`==` do not matter).
+    The arm executor may be called directly or through a private helper; the count test may sit in a private helper called on the way."""
+    cg = CallGraph(F, [crate])
+    eu = [b for f, b in cg.bodies.items() if f.endswith("functions::execute_user_function")]
+    if not rep.check(len(eu) == 1, "C16-R3", "anchor:execute_user_function", "execute_user_function not found"):
+        return
+    b = eu[0]
+    private = {it["name"] for its in fns.by_name.values() for it in its if Q.is_private(it)}
+
+    def local_private(f):
+        return f in cg.bodies and f != b.fn and f.split("::")[-1] in private
+
+    def reaches_selector(f, depth):
+        if re.search(r"execute_function_match_arms$", f):
+            return True
+        if depth <= 0 or not local_private(f):
+            return False
+        return any(reaches_selector(g, depth - 1) for g in cg.out(f))
+
+    arms = [(i, t) for i, t in b.calls() if reaches_selector(t.get("f") or t["tf"], 2)]
+    guards = len_compare_blocks(b)
+    _ok, err_here = result_exits(b)
+    for i, t in b.calls():
+        f = t.get("f") or t["tf"]
+        if local_private(f) and not reaches_selector(f, 2):
+            hb = cg.bodies[f]
+            explicit_err = any(s_.get("rk") == "agg" and s_.get("adt", "").endswith("result::Result") and s_.get("var") == "Err" for _i, s_ in hb.stmts())
+            if len_compare_blocks(hb, both=True) and explicit_err:
+                guards.append(i)    # `check_arity(fxn_def, args)?`: a helper that compares two lengths and builds an Err
+    for ai, at in arms:
+        rep.check(any(b.dominates(g, ai) for g in guards), "C16-R3", "execute_user_function:arity-test-dominates",
+                  "execute_user_function runs the match arms (line %d) without a dominating argument-count comparison" % at["l"], "%s:%d" % (b.file, at["l"]))
+    rep.floor("C16-R3", "arm executor call sites", len(arms), 1)
 
 
 def run(F, rep, tier):
     crate = "mech_interpreter.lib"
     items = F.syn(crate)
+    fns = Q.Fns(items)
     rep.rule("C16-R1", "arms tried in forward order; the first success returns")
     rep.rule("C16-R2", "pattern environment is fresh per arm and shared by matcher, guard and body")
     rep.rule("C16-R3", "arity test dominates arm execution; no matching arm is an Err")
     rep.rule("C16-R4", "match_expression: the exhaustiveness Err exit precedes the arm loop")
     rep.rule("C16-R6", "pattern traversals visit every sub-pattern field (K6 field-use)")
-    for name, mod in (("execute_function_match_arms", "functions"), ("match_expression", "expressions")):
-        it = fn_item(items, name, mod)
+    for name, mod in SELECTORS:
+        it = fns.get(name, mod)
         if not rep.check(it is not None, "C16-R1", "anchor:%s" % name, "%s not found" % name):
             continue
-        loops = [l for l in arm_loops(it["body"]) if matcher_calls(l[3])]
-        if not rep.check(len(loops) == 1, "C16-R1", "%s:arm-loop" % name, "%s: expected one arm-selection loop, found %d" % (name, len(loops))):
-            continue
-        loop = loops[0]
-        envs, lets = check_arm_loop(rep, "C16", name, loop)
-        body = loop[3]
-        # guard and body use the matcher's environment
-        for env in sorted(envs):
-            guard_calls = []
-            for gm in find(body, "match"):
-                # the guard of the arm under test: `match &arm.guard { Some(guard) => guard_expression_true(guard, ENV, p) .. }`
-                if re.fullmatch(r"&?arm\.guard", render(gm[1]).strip()):
-                    guard_calls += [c for c in find(gm, "call") if path_of(c[1]) and re.search(r"guard_expression_true$", path_of(c[1]))]
-            rep.check(len(guard_calls) >= 1, "C16-R2", "%s:guard-evaluated" % name, "%s: the guard of the arm under test is not evaluated" % name) if name == "match_expression" else None
-            for c in guard_calls:
-                args = [render(a) for a in c[2]]
-                rep.check(any(re.search(r"\b%s\b" % re.escape(env), a) for a in args), "C16-R2", "%s:guard-uses-arm-env" % name,
-                          "%s: the arm guard is evaluated with %s instead of the environment the pattern matcher filled (`%s`): pattern variables are not visible to the guard" % (name, args[1:2], env))
-            body_calls = [c for c in find(body, "call") if path_of(c[1]) == "expression" and any(re.search(r"(?<![A-Za-z_])arm\.expression", render(a)) for a in c[2])]
-            rep.check(len(body_calls) >= 1, "C16-R2", "%s:body-evaluated" % name, "%s: the matching arm's expression is not evaluated" % name)
-            for c in body_calls:
-                args = [render(a) for a in c[2]]
-                rep.check(any(re.search(r"\b%s\b" % re.escape(env), a) for a in args), "C16-R2", "%s:body-uses-arm-env" % name,
-                          "%s: the arm body is evaluated with %s instead of the matcher's environment `%s`" % (name, args[1:2], env), sample={"fn": name, "env": env})
-        # after the loop: Err
-        stmts = it["body"]
-        idx = None
-        for i, st in enumerate(stmts):
-            if st[0] == "expr" and st[1] is loop:
-                idx = i
-        tail = stmts[idx + 1:] if idx is not None else []
-        tail_txt = " ".join(render_stmt(s) for s in tail)
-        rep.check(idx is not None and "Err(" in tail_txt and "Ok(" not in tail_txt, "C16-R3", "%s:no-match-is-error" % name,
-                  "%s: falling out of the arm loop does not produce an error (`%s`)" % (name, tail_txt[:100]))
-        if name == "match_expression":
-            pre = stmts[:idx] if idx is not None else []
-            pre_txt = " ".join(render_stmt(s) for s in pre)
-            rep.check("MatchNonExhaustiveError" in pre_txt and "return Err" in pre_txt.replace("return  Err", "return Err"), "C16-R4", "match_expression:exhaustiveness-before-arms",
-                      "match_expression: no `return Err(MatchNonExhaustiveError)` precedes the arm loop: a match without wildcard that does not cover its enum is no longer rejected")
-            rep.check(re.search(r"Pattern::Wildcard", pre_txt) is not None, "C16-R4", "match_expression:wildcard-test", "match_expression: the wildcard test before the arm loop is gone")
-    # R3 arity test in execute_user_function (MIR dominance)
-    cg = CallGraph(F, [crate])
-    eu = [b for f, b in cg.bodies.items() if f.endswith("functions::execute_user_function")]
-    if rep.check(len(eu) == 1, "C16-R3", "anchor:execute_user_function", "execute_user_function not found"):
-        b = eu[0]
-        arms = calls_matching(b, r"execute_function_match_arms$")
-        ok_exits, err_exits = result_exits(b)
-        # a comparison of two lengths (Ne/Eq on len() results) whose one side reaches only Err exits and dominates the arm executor
-        from lib.mirq import Slice, edge_dominates
-        sl = Slice(b)
-        guards = []
-        for i, blk in enumerate(b.blocks):
-            t = blk["t"]
-            if t["k"] != "switch" or not isinstance(t["on"], list):
+        sel = Selector(fns, it)
+        n = len(sel.candidates)
+        if n == 0:
+            # the selection may still happen, but not as a `for` over the arms: a `while let` / `loop` / iterator adaptor that reaches the matcher
+            other = [l for l in list(find(it["body"], "while")) + list(find(it["body"], "loop")) + list(find(it["body"], "closure"))
+                     if Q.reaches(fns, l, is_matcher, 2, Q.is_private)]
+            if other:
+                rep.note("undecided", {"rule": "C16-R1", "fn": name, "why": "the pattern matcher is reached from a %s, not from a `for` loop over the arms" % other[0][0]})
                 continue
-            for bi, s in sl.defs.get(t["on"][0], []):
-                if s.get("rk") == "bin" and s.get("op") in ("Ne", "Eq"):
-                    roots = set()
-                    for o in s["src"]:
-                        roots |= {r[1].split("::")[-1] for r in sl.roots(o) if r[0] == "call"}
-                    if "len" in roots:
-                        guards.append(i)
-        for ai, at in arms:
-            rep.check(any(b.dominates(g, ai) for g in guards), "C16-R3", "execute_user_function:arity-test-dominates",
-                      "execute_user_function runs the match arms (line %d) without a dominating argument-count comparison" % at["l"], "%s:%d" % (b.file, at["l"]))
-        rep.floor("C16-R3", "arm executor call sites", len(arms), 1)
+        if not rep.check(n == 1, "C16-R1", "%s:arm-loop" % name, "%s: expected one arm-selection loop, found %d" % (name, n)):
+            continue
+        check_selector(rep, sel, name)
+    check_arity(F, rep, crate, fns)
     # R6 field-use in patterns.rs
+    from rules.c16_shapes import field_use_via
     pats = [it for it in items if it["k"] == "fn" and it["mod"].endswith("patterns")]
-    n = field_use(rep, "C16-R6", F, crate, pats, F.adts("mech_core.lib"), "nodes::Pattern", lambda f: "Pattern" in f[1], exclude_fns=("summarize_pattern",))
+    n = field_use_via(rep, "C16-R6", fns, pats, F.adts("mech_core.lib"), "nodes::Pattern", lambda f: "Pattern" in f[1], exclude_fns=("summarize_pattern",))
     rep.floor("C16-R6", "pattern traversal arms with sub-pattern fields", n, 3)
     rep.analysed = {"pattern_functions": len(pats)}
-    from rules.loopshape import c16_loop_carried_args
-    c16_loop_carried_args(F, rep)
-    from rules.loopshape import c16_pattern_value_pairing
-    c16_pattern_value_pairing(F, rep)
-    from rules.loopshape import trial_env_fresh
-    trial_env_fresh(F, rep, "C16-R8", {"match_expression", "match_validate_arm_kinds", "execute_function_match_arms"}, 3)
-    from rules.loopshape import c16_catch_all_predicate
-    c16_catch_all_predicate(F, rep)
-    from rules.loopshape import c16_broadcast_shape
-    c16_broadcast_shape(F, rep)
+    from rules import c16_shapes as S
+    S.loop_carried_args(F, rep, fns)
+    S.pattern_value_pairing(F, rep, fns)
+    S.trial_env_fresh(F, rep, fns, "C16-R8", ("match_expression", "match_validate_arm_kinds", "execute_function_match_arms"), 3)
+    S.catch_all_predicate(F, rep, fns)
+    S.broadcast_shape(F, rep, fns)
